@@ -151,6 +151,30 @@ F6L ==
     /\ dev = Build6(ed, mapn, sfx, tsd, TRUE, dd, ds)
     /\ tgt = Build6(et, "crypto-inside", "", [T1 |-> "Trans1", T2 |-> "Trans2"], TRUE, dt, "65535")
 
+(* F6P: crypto map entries that use ikev2 ipsec-proposals (objects whose settings live in a sub-mode; the     *)
+(* header line alone creates an EMPTY proposal).  Proposals are matched by content, names differ; the device *)
+(* may hold a spare generated proposal: with the content the target wants, with other content, or header-only *)
+PropText(c) == CASE c = "P1" -> {"protocol esp encryption aes-256", "protocol esp integrity sha-256"}
+                 [] c = "P2" -> {"protocol esp encryption aes", "protocol esp integrity sha-1"}
+                 [] OTHER -> {}
+PropObj(name, c, gen) == <<Key("prop", name), O("prop", name, gen, {L(".", t, <<>>) : t \in PropText(c)})>>
+PEntrySets(doms) == UNION {{e \in [S -> [peer : {"10.9.9.1", "10.9.9.2"}, c : {"P1", "P2"}]] : \A x, y \in S : x # y => e[x].peer # e[y].peer} : S \in doms}
+BuildP(es, pn, gen, spare) ==
+  LET S == DOMAIN es
+      props == {PropObj(pn[c], c, gen) : c \in {es[x].c : x \in S}}
+               \cup (IF spare = "none" THEN {} ELSE {PropObj("PropS-DRC-0", spare, TRUE)})
+      lines == UNION {{L(SeqStr(x), "set peer " \o es[x].peer, <<>>),
+                       L(SeqStr(x), "set ikev2 ipsec-proposal $", <<Key("prop", pn[es[x].c])>>)} : x \in S}
+      cmap == IF S = {} THEN {} ELSE {<<Key("cmap", "crypto-inside"), O("cmap", "crypto-inside", FALSE, lines)>>}
+      cmi  == IF S = {} THEN {} ELSE {<<Key("cmi", "inside"), O("cmi", "inside", FALSE, {L("", "$ interface", <<Key("cmap", "crypto-inside")>>)})>>}
+  IN [objs |-> F(props \cup cmap \cup cmi)]
+F6P ==
+  \E ed \in PEntrySets(SUBSET {1, 2}), et \in PEntrySets({{1}, {1, 2}}),      \* (an empty target leaves the interface's crypto map alone)
+     pnd \in {[P1 |-> "Prop1", P2 |-> "Prop2"], [P1 |-> "Prop2", P2 |-> "Prop1"], [P1 |-> "Prop1-DRC-0", P2 |-> "Prop2-DRC-0"]},
+     spare \in {"none", "P1", "P2", "E"} :
+    /\ dev = BuildP(ed, pnd, pnd["P1"] = "Prop1-DRC-0", spare)
+    /\ tgt = BuildP(et, [P1 |-> "Prop1", P2 |-> "Prop2"], FALSE, "none")
+
 (* M6: merge of the Netspoc crypto map with settings and a dynamic map from the raw file (C18).  A raw setting *)
 (* replaces the Netspoc setting of the same kind, every other raw line is added; the device is empty            *)
 RawSettings == {"set security-association lifetime seconds 28800", "set security-association lifetime kilobytes 4608000",
@@ -175,7 +199,7 @@ M6 ==
        /\ dev = [objs |-> F({})]
        /\ tgt = cfg(nsp, {}) @@ [parts |-> [rawlines |-> rs, rawdyn |-> rd, merged |-> cfg(keep \cup rawl \cup dynref, dyno)]]
 
-Init == CASE Fam = "M6" -> M6 [] Fam = "F5U" -> F5U [] Fam = "F5" -> F5 [] Fam = "F6L" -> F6L
+Init == CASE Fam = "F6P" -> F6P [] Fam = "M6" -> M6 [] Fam = "F5U" -> F5U [] Fam = "F5" -> F5 [] Fam = "F6L" -> F6L
 Next == UNCHANGED <<dev, tgt>>
 Out == PrintT(<<"VOUT", ToJson([fam |-> Fam, dev |-> dev, tgt |-> tgt, tie |-> FALSE])>>)
 =============================================================================
